@@ -44,7 +44,7 @@ pub fn cases(quick: bool) -> Vec<Case> {
         idx += 1;
     };
     let totals: Vec<usize> = if quick { (0..=20).chain([31, 32, 33, 50, 64, 98, 99, 100, 101, 128, 150, 255, 256, 300]).collect() } else { (0..=120).chain([128, 150, 199, 200, 255, 256, 257, 299, 300]).collect() };
-    let reps = if quick { 5 } else { 40 };
+    let reps = if quick { 12 } else { 40 };
     for _rep in 0..reps {
     for ver in ["V1", "V2", "V3", "V4"] {
         for &total in &totals {
